@@ -71,6 +71,7 @@ def closure_of(outer_q, inner, cls, env):
 def run(it, c, args): return it.call_closure(c, list(args), {})
 
 def helper_obligations(ctx, prefix):
+    register_replayers(ctx, prefix)
     from pytableaux.proof import helpers as H, common as C
     world = helper_world()
     it = Interp(Path([]), world)
@@ -238,7 +239,12 @@ def nodeconsts(ctx, prefix, world):
                 def sym_contains(s, it, n): return id(n) in tracked
                 def sym_getattr(s, it, name):
                     if name == 'items': return Contract(lambda it: GenList((names[k], v) for k, v in tracked.items()), 'dict.items')
+                    if name == 'values': return Contract(lambda it: GenList(tracked.values()), 'dict.values')
+                    if name == 'keys': return Contract(lambda it: GenList(names[k] for k in tracked), 'dict.keys')
+                    if name == 'get': return Contract(lambda it, n, default=None: tracked.get(id(n), default), 'dict.get')
                     raise Outside(name)
+                def sym_iter(s, it): return [names[k] for k in tracked]
+                def sym_len(s, it): return len(tracked)
             names = {}
             consts = LSet()
             selfm = CacheM(filter=Contract(lambda it, n, br: n.tracked, 'FilterHelper.__call__'), consts=Holder2({id(b): consts}))
@@ -279,3 +285,60 @@ def nodeconsts(ctx, prefix, world):
 class Holder2(SymVal):
     def __init__(s, d): s.d = d
     def sym_getitem(s, it, k): return s.d[id(k)]
+
+
+# ------------------------------------------------------------------ replays on the real prover
+
+def replay_listeners(r):
+    """real tableaux with forks in modal logics: no mutable per-branch helper value may be shared between two branches, and
+    WorldIndex must list exactly the access nodes of its own branch"""
+    from pytableaux.lang import Argument
+    from pytableaux.proof import Tableau, helpers as H
+    from pyvc.par import hard_timeout, HardTimeout
+    args = ['e:MLa:LAKMKbANbNbKMcMdMMNa', 'a:AMbMc:LAdMe', 'b:AaMb:LMc', 'Na:AMKabMc:LAMdMe', 'c:AKMaMbMMc:LLd']
+    out = []
+    for L in ('D', 'K', 'T', 'S4', 'KFDE', 'S5'):
+        for a in args:
+            try:
+                with hard_timeout(20): t = Tableau(L, Argument(a), max_steps=400).build()
+            except HardTimeout: continue
+            except Exception as e: out.append(f'{L} {a}: {type(e).__name__}'); continue
+            branches = list(t)
+            for rule in t.rules:
+                for hcls, h in rule.helpers.items():
+                    if not isinstance(h, H.BranchCache): continue
+                    seen = {}
+                    for b in branches:
+                        if b not in h: continue
+                        v = h[b]
+                        items = list(v.items()) if isinstance(v, dict) else [(None, v)]
+                        for k, x in items:
+                            if isinstance(x, (set, dict, list)):
+                                if id(x) in seen and seen[id(x)] is not b:
+                                    out.append(f'{L} {a}: {type(rule).__name__}[{hcls.__name__}] shares the value for key {k!r} between branches {seen[id(x)].id} and {b.id}')
+                                seen[id(x)] = b
+                    if isinstance(h, H.WorldIndex):
+                        for b in branches:
+                            if b not in h: continue
+                            real = {}
+                            for n in b:
+                                if n.get('world1') is not None: real.setdefault(n['world1'], set()).add(n['world2'])
+                            got = {k: set(v) for k, v in h[b].items() if v}
+                            if got != real: out.append(f'{L} {a}: {type(rule).__name__}[WorldIndex] of branch {b.id} lists {got}, its access nodes are {real}')
+            if out: return dict(reproduced=True, detail='; '.join(out[:3]))
+    return dict(reproduced=False, detail='no aliasing and no foreign access pair found on the sample tableaux')
+
+def replay_nodeconsts(r):
+    "a universal node whose own sentence introduces a constant must be offered that constant"
+    from pytableaux.lang import Argument
+    from pytableaux.proof import Tableau
+    out = []
+    for L in ('CFOL', 'FDE', 'K3', 'K'):
+        for a in ('Gmm:VxGxm', 'SyGyy:VxGxm', 'Gnm:VxGxm:Fn'):
+            t = Tableau(L, Argument(a)).build()
+            if not t.valid: out.append(f'{L}: {a} is reported invalid={t.invalid} (it is valid: the universal premise must be instantiated with the constant it mentions)')
+    return dict(reproduced=bool(out), detail='; '.join(out[:3]) or 'universal premises are instantiated with their own constants')
+
+def register_replayers(ctx, prefix):
+    ctx.replayers[f'{prefix}.helpers.listeners'] = replay_listeners
+    ctx.replayers[f'{prefix}.helpers.NodeConsts'] = replay_nodeconsts
